@@ -14,7 +14,38 @@ AXIOM_ALLOW = []
 SHARD = 1500
 SEARCH_MAX = 2500
 THEOREMS = [
-    ("c05_reset_is_new", "forall (s : dsu) (n : nat), reset s n = Ok (new n)"),
+    ('c05_reset_is_new',
+     'forall (s : dsu) (n : nat), reset s n = Ok (new n)'),
+    ('c05_inv_preserved',
+     "(forall n, Inv n [] (new n)) /\\ (forall n es s o s' r, Inv n es s -> step s o = Ok (s', r) -> Inv (ghost_n n o) (ghost_es es o) s')"),
+    ('c05_reach_inv',
+     'forall n es s, reach n es s -> Inv n es s'),
+    ('c05_history_reach',
+     'forall n0 ops s rs, run (new n0) ops = Ok (s, rs) -> reach (fst (ghost_run n0 [] ops)) (snd (ghost_run n0 [] ops)) s'),
+    ('c05_history_no_fuel',
+     'forall n0 ops, run (new n0) ops <> Fuel'),
+    ('c05_no_fuel_exhaustion',
+     'forall n es s o, reach n es s -> step s o <> Fuel'),
+    ('c05_panic_iff_out_of_range',
+     'forall n es s o, reach n es s -> (step s o = Panic <-> in_range n o = false)'),
+    ('c05_partition',
+     "forall n es s u v, reach n es s -> u < n -> v < n -> exists s' b, step s (Check u v) = Ok (s', RB b) /\\ (b = true <-> conn es u v)"),
+    ('c05_un_true_iff_joined',
+     "forall n es s u v, reach n es s -> u < n -> v < n -> exists s' b, step s (Un u v) = Ok (s', RB b) /\\ (b = true <-> ~ conn es u v)"),
+    ('c05_size_is_cardinality',
+     "forall n es s v, reach n es s -> v < n -> exists s' k, step s (Size v) = Ok (s', RN k) /\\ class_card n es v k"),
+    ('c05_class_card_unique',
+     "forall n es v k k', class_card n es v k -> class_card n es v k' -> k = k'"),
+    ('c05_par_representative',
+     "forall n es s, reach n es s -> (forall v, v < n -> exists r, par_val s v = Some r /\\ r < n /\\ conn es v r) /\\ (forall u v, u < n -> v < n -> (conn es u v <-> par_val s u = par_val s v)) /\\ (forall o s' x, is_lookup o = true -> step s o = Ok (s', x) -> forall v, v < n -> par_val s' v = par_val s v)"),
+    ('c05_depth_log',
+     "forall n es s v, reach n es s -> v < n -> exists r k c, chain (p s) v r k /\\ class_card n es v c /\\ nth r (sz s) 0 = c /\\ (forall r' k', chain (p s) v r' k' -> r' = r /\\ 2 ^ k' <= c /\\ k' <= Nat.log2 c)"),
+    ('c05_stack_depth',
+     'forall n es s v c, reach n es s -> v < n -> class_card n es v c -> par_rec (S (Nat.log2 c)) (p s) v = par_rec (par_fuel (p s)) (p s) v /\\ exists x, par_rec (S (Nat.log2 c)) (p s) v = Ok x'),
+    ('c05_clone_copies_reachable',
+     'forall cs, mreach cs -> Forall (fun s => exists n es, reach n es s) cs'),
+    ('c05_model_check_implies_spec_check',
+     'forall c : case, model_check c = true -> spec_check c = true'),
 ]
 RULE = ("histories of 0-70 calls on 0-24 elements over several live copies: un / par / check / size / reset (growing and "
         "shrinking) / clone, random and adversarial union orders (binomial trees joined root to root, chains in both "
@@ -25,8 +56,10 @@ TRUSTED = ["executor harness/crates/c05 (drives rlib_dsu::DSU, prints return val
            "hook rlib_dsu::DSU::verif_raw (cargo feature verif): read-only view of p and sz"]
 ASSUMPTIONS = ["Vec<usize> modelled as list nat, usize arithmetic as nat (sizes are bounded by the element count, no overflow)",
                "a panic ends the history (the partially updated value is not observed afterwards)",
-               "the recursion of par is modelled with fuel = number of elements; the theorems exclude running out of fuel "
-               "and bound the real recursion depth by log2 of the class size"]
+               "the recursion of par is modelled with fuel = number of elements + 1; the theorems exclude running out of fuel "
+               "(c05_no_fuel_exhaustion, c05_history_no_fuel) and bound the recursion depth by log2(class size) + 1 frames "
+               "(c05_stack_depth, c05_depth_log)",
+               "the stack size of the real process is not modelled: the claim is the frame count"]
 
 OPS = {"u": 2, "k": 2, "p": 1, "s": 1, "r": 1, "c": 0}
 
@@ -332,13 +365,24 @@ def extra(ctx, known):
 
 
 MANIFEST = {
-    "text": "Theorems (Coq, no axioms) about an executable Gallina model of rlib_dsu::DSU (parent and size vectors, recursive "
-            "find with path compression, union by size, reset, clone). The model is tied to the code on every run: the "
-            "executor replays generated histories on the crate and Coq proves, case by case, that return values and the "
-            "hooked (p, sz) arrays equal the model's and that they satisfy a model-independent specification (naive "
-            "partition, depth <= log2 class size).",
+    "text": "Coq theorems (no axioms) about an executable Gallina model of rlib_dsu::DSU (parent and size vectors with checked "
+            "indexing, recursive find with path compression exactly as coded, union by size, reset as resize + two loops, "
+            "clone), for every finite history of un / par / check / size / reset (growing or shrinking) on every live "
+            "copy: an invariant with a ghost rank and representative function is preserved by every call "
+            "(c05_inv_preserved); the find never runs out of fuel and a call panics exactly on an out-of-range index; "
+            "check u v <=> (u,v) in the equivalence closure of the union requests since the last reset (c05_partition); "
+            "un returns true <=> the arguments were in different classes; size = class cardinality; par returns a class "
+            "member, equal exactly on connected elements and unchanged by lookups; every parent chain has length <= "
+            "log2(class size) and the recursion needs at most log2(class size)+1 frames (c05_depth_log, c05_stack_depth). "
+            "The model is tied to the code on every run: the executor replays generated histories (several copies, resets, "
+            "clones, adversarial orders) on the crate and Coq proves case by case that return values and the hooked (p, sz) "
+            "arrays equal the model's (batch_model) and satisfy a model-independent specification (batch_spec: naive "
+            "partition replay, forest shape, depth <= log2 class size); c05_model_check_implies_spec_check proves that the "
+            "first implies the second. An implementation-only search drives binomial-tree, chain and random union orders "
+            "up to 10^6 elements and checks depth and root sizes through the hook.",
     "level_note": "Trusted: Coq kernel + vm_compute; the Rust executor, the verif_raw hook and the Python case printer; Vec as "
-                  "list, usize as nat; theorems are about the model, the correspondence is sampled (histories on <= 24 "
-                  "elements); the 10^6-element runs are an implementation-only search, not a proof.",
+                  "list, usize as nat (sizes never exceed the element count); a panic ends a history; theorems are about "
+                  "the model, the correspondence is sampled (histories on <= 24 elements); the 10^6-element runs are an "
+                  "implementation-only search, not a proof; process stack size is not modelled (the claim is the frame count).",
     "technique": "Coq proof over Gallina model + vm_compute correspondence batches against the Rust crate",
 }
